@@ -2,6 +2,7 @@ GEN = ("Trusted: Lean kernel (axioms propext/Classical.choice/Quot.sound only, a
        "validated by the correspondence run, the Go harness; crypto primitives, math/big and the Go runtime are modelled not verified.")
 CFG = {
     "lean": "Aqv.Props.C11",
+    "gen": ["translated"],
     "exe": "aqmodel_c11",
     "harness": "c11",
     "rule": "byte strings: exhaustive over a 17-symbol boundary alphabet up to length 4 (quick) / 5 (thorough), random nested items "
